@@ -1,4 +1,5 @@
 import Tahoe.Storage.LemmasSlot
+import Tahoe.Storage.LemmasImmLease
 /-!
 C25 — lease semantics (property theorems).  Models: `Tahoe/Storage/Lease.lean` (records, v1/v2
 serializers with an abstract `blake2b`, immutable container), `Tahoe/Storage/Mutable.lean` (mutable
@@ -46,14 +47,13 @@ theorem unknown_renew_noop_error_server (env : Env) (b : Bucket) (secret : Bytes
       simp only [renewAll, he]
       exact ⟨trivial, by simp⟩
 
-/-! ### renew-or-add and no backdating (mutable container) -/
+/-! ### renew-or-add and no backdating (both container kinds) -/
 
-/-- **renew_or_add** — `_partial`: proved for the MUTABLE container (v1 and v2); the immutable side is the
-    comment below.   `add_or_renew_lease` with a renew secret that an
+/-- **renew_or_add**, mutable container (v1 and v2): `add_or_renew_lease` with a renew secret that an
     existing lease already carries succeeds without needing any space, leaves the NUMBER of leases
     unchanged, sets that lease's expiry to `max(old, new)` and leaves every other lease — and the
     renewed lease's owner, secrets and nodeid — exactly as they were -/
-theorem renew_or_add_partial (h : Bytes → Bytes) (f : File) (hwf : WF f) (s : Schema) (hs : Mutable.schemaOf f = some s)
+theorem renew_or_add_mutable (h : Bytes → Bytes) (f : File) (hwf : WF f) (s : Schema) (hs : Mutable.schemaOf f = some s)
     (avail : Nat) (li : Lease) (hexp : li.expire < 2 ^ 32) (i : Nat) (l : Lease)
     (hfind : Mutable.findRenew h s li.renew (enumerateLeases f) = some (i, l)) :
     (addOrRenew h f avail li).2 = none ∧
@@ -96,18 +96,17 @@ theorem renew_or_add_partial (h : Bytes → Bytes) (f : File) (hwf : WF f) (s : 
   rw [key.2]; simp
 
 set_option maxRecDepth 20000 in
-/-- the hypotheses of `renew_or_add_partial` are satisfiable: a v1 container holding one lease -/
+/-- the hypotheses of `renew_or_add_mutable` are satisfiable: a v1 container holding one lease -/
 example :
     Mutable.findRenew id .v1 (zeros 32)
       (enumerateLeases (addOrRenew id (create .v1 (zeros 20) (zeros 32)) 1000
         { owner := 1, expire := 100, renew := zeros 32, cancel := zeros 32, nodeid := zeros 20 }).1)
     = some (0, { owner := 1, expire := 100, renew := zeros 32, cancel := zeros 32, nodeid := zeros 20 }) := by decide
 
-/-- **no_backdating** — `_partial`: proved for the MUTABLE container's `renew_lease(allow_backdate=False)` (which
-    is also the renew path of `add_or_renew_lease`); the immutable side is the comment below: whatever the secret
+/-- **no_backdating** for the mutable container's `renew_lease(allow_backdate=False)`: whatever the secret
     and the proposed expiry time, every lease listed before the call is listed afterwards in the same
     slot with the same owner and secrets and an expiry time that is NOT SMALLER -/
-theorem no_backdating_partial (h : Bytes → Bytes) (f : File) (hwf : WF f) (secret : Bytes) (t : Nat) (ht : t < 2 ^ 32)
+theorem no_backdating_renew_mutable (h : Bytes → Bytes) (f : File) (hwf : WF f) (secret : Bytes) (t : Nat) (ht : t < 2 ^ 32)
     (j : Nat) (x : Lease) (hx : (j, x) ∈ enumerateLeases f) :
     ∃ x', (j, x') ∈ enumerateLeases (Mutable.renewLease h f secret t).1 ∧ x.expire ≤ x'.expire ∧
       x'.owner = x.owner ∧ x'.renew = x.renew ∧ x'.cancel = x.cancel ∧ x'.nodeid = x.nodeid := by
@@ -140,16 +139,148 @@ theorem no_backdating_partial (h : Bytes → Bytes) (f : File) (hwf : WF f) (sec
           exact ⟨(j, x), hx, by simp [hj]⟩
       · exact ⟨x, hx, Nat.le_refl _, rfl, rfl, rfl, rfl⟩
 
-/- NOT PROVED IN LEAN (immutable side of `renew_or_add` / `no_backdating`): the same two statements for
-   `ImmL.addOrRenew` / `ImmL.renewLease` over `ImmL.getLeases` under `ImmL.WF`:
-     ImmL.findRenew h s li.renew (ImmL.getLeases f) 0 = some (i, l) → li.expire < 2^32 →
-       (ImmL.addOrRenew h f avail li).2 = none ∧
-       ImmL.getLeases (ImmL.addOrRenew h f avail li).1 = (ImmL.getLeases f).set i { l with expire := max l.expire li.expire }
-   What is missing is the read-after-write lemma for the 72-byte record array at `leaseOffset`
-   (the analogue of `enumerateLeases_write`).  The immutable model is tied to storage/immutable.py by the
-   C25 correspondence (lease lists and raw bytes of v1 and v2 immutable share files after every
-   add_lease / renew_lease) and the monitor checks both statements on the real code; for immutable
-   containers Lean proves `unknown_renew_noop_error` and `v2_no_cleartext` only. -/
+/-- **no_backdating**, mutable container, for the whole `add_or_renew_lease` (renew path AND the path that adds a
+    new lease into an empty slot or a new extra slot): every lease listed before is listed afterwards in the same
+    slot with the same owner and secrets and an expiry that is not smaller -/
+theorem no_backdating_mutable (h : Bytes → Bytes) (f : File) (hwf : WF f) (avail : Nat) (li : Lease)
+    (hexp : li.expire < 2 ^ 32) (j : Nat) (x : Lease) (hx : (j, x) ∈ enumerateLeases f) :
+    ∃ x', (j, x') ∈ enumerateLeases (Mutable.addOrRenew h f avail li).1 ∧ x.expire ≤ x'.expire ∧
+      x'.owner = x.owner ∧ x'.renew = x.renew ∧ x'.cancel = x.cancel ∧ x'.nodeid = x.nodeid := by
+  have hr := no_backdating_renew_mutable h f hwf li.renew li.expire hexp j x hx
+  unfold Mutable.addOrRenew
+  split
+  · exact ⟨x, hx, Nat.le_refl _, rfl, rfl, rfl, rfl⟩
+  · split
+    · rename_i f' e; rw [e] at hr; exact hr
+    · exact ⟨x, addLease_keeps f hwf avail _ j x hx, Nat.le_refl _, rfl, rfl, rfl, rfl⟩
+    · rename_i f' e' _ e; rw [e] at hr; exact hr
+
+/-- **renew_or_add**, immutable container (v1 and v2): same statement over `get_leases` (entry `i` of the
+    list is replaced, `List.set`); the share data is untouched -/
+theorem renew_or_add_immutable (h : Bytes → Bytes) (f : File) (hwf : ImmL.WF f) (s : Schema)
+    (hs : ImmL.schemaOf f = some s) (avail : Nat) (li : Lease) (hexp : li.expire < 2 ^ 32) (i : Nat) (l : Lease)
+    (hfind : ImmL.findRenew h s li.renew (ImmL.getLeases f) 0 = some (i, l)) :
+    (ImmL.addOrRenew h f avail li).2 = none ∧
+    ImmL.getLeases (ImmL.addOrRenew h f avail li).1 =
+      (ImmL.getLeases f).set i { l with expire := max l.expire li.expire } ∧
+    (ImmL.getLeases (ImmL.addOrRenew h f avail li).1).length = (ImmL.getLeases f).length ∧
+    ImmL.dataOf (ImmL.addOrRenew h f avail li).1 = ImmL.dataOf f ∧ ImmL.WF (ImmL.addOrRenew h f avail li).1 := by
+  obtain ⟨_, hget, _⟩ := ImmL.findRenew_some hfind
+  rw [Nat.sub_zero] at hget
+  obtain ⟨hi, _, ho, he, hr, hc, hn⟩ := ImmL.listed_lease hwf hget
+  have key : (ImmL.addOrRenew h f avail li).2 = none ∧
+      ImmL.getLeases (ImmL.addOrRenew h f avail li).1 =
+        (ImmL.getLeases f).set i { l with expire := max l.expire li.expire } ∧
+      ImmL.dataOf (ImmL.addOrRenew h f avail li).1 = ImmL.dataOf f ∧ ImmL.WF (ImmL.addOrRenew h f avail li).1 := by
+    simp only [ImmL.addOrRenew, ImmL.renewLease, hs, hfind]
+    by_cases hgt : li.expire > l.expire
+    · simp only [hgt, if_true, true_and, ImmL.writeLeaseRecord]
+      have w := ImmL.write_spec f hwf i hi (serImm { l with expire := li.expire }) (length_serImm _)
+      rw [w.getLeases hwf, ImmL.parseImm_serImm { l with expire := li.expire } ho hexp hr hc hn,
+        Nat.max_eq_right (by omega)]
+      exact ⟨rfl, w.data, w.wf⟩
+    · simp only [hgt, if_false, true_and]
+      rw [Nat.max_eq_left (by omega)]
+      refine And.intro ?_ hwf
+      apply List.ext_getElem?; intro k
+      rw [List.getElem?_set]
+      by_cases hk : i = k
+      · subst hk
+        have : i < (ImmL.getLeases f).length := by rw [ImmL.length_getLeases hwf]; exact hi
+        have hl : (ImmL.getLeases f)[i] = l := by
+          have := List.getElem?_eq_getElem this
+          rw [hget] at this; exact (Option.some.inj this).symm
+        simp [this, hl]
+      · simp [hk]
+  refine ⟨key.1, key.2.1, ?_, key.2.2.1, key.2.2.2⟩
+  rw [key.2.1]; simp
+
+/-- **renew_or_add** (both container kinds): adding a lease whose renew secret already exists renews that
+    lease — count unchanged, expiry `max(old, new)`, everything else untouched — instead of adding a duplicate -/
+theorem renew_or_add (h : Bytes → Bytes) (avail : Nat) (li : Lease) (hexp : li.expire < 2 ^ 32) :
+    (∀ f s i l, WF f → Mutable.schemaOf f = some s →
+      Mutable.findRenew h s li.renew (enumerateLeases f) = some (i, l) →
+      (addOrRenew h f avail li).2 = none ∧
+      enumerateLeases (addOrRenew h f avail li).1 =
+        (enumerateLeases f).map (fun p => if p.1 = i then (i, { l with expire := max l.expire li.expire }) else p) ∧
+      (getLeases (addOrRenew h f avail li).1).length = (getLeases f).length) ∧
+    (∀ f s i l, ImmL.WF f → ImmL.schemaOf f = some s →
+      ImmL.findRenew h s li.renew (ImmL.getLeases f) 0 = some (i, l) →
+      (ImmL.addOrRenew h f avail li).2 = none ∧
+      ImmL.getLeases (ImmL.addOrRenew h f avail li).1 =
+        (ImmL.getLeases f).set i { l with expire := max l.expire li.expire } ∧
+      (ImmL.getLeases (ImmL.addOrRenew h f avail li).1).length = (ImmL.getLeases f).length) :=
+  ⟨fun f s i l hwf hs hf => renew_or_add_mutable h f hwf s hs avail li hexp i l hf,
+   fun f s i l hwf hs hf =>
+     let r := renew_or_add_immutable h f hwf s hs avail li hexp i l hf
+     ⟨r.1, r.2.1, r.2.2.1⟩⟩
+
+/-- **no_backdating**, immutable container, `renew_lease(allow_backdate=False)`: every lease keeps its position
+    in `get_leases`, its owner and secrets, and its expiry does not decrease -/
+theorem no_backdating_renew_immutable (h : Bytes → Bytes) (f : File) (hwf : ImmL.WF f) (secret : Bytes) (t : Nat)
+    (ht : t < 2 ^ 32) (j : Nat) (x : Lease) (hx : (ImmL.getLeases f)[j]? = some x) :
+    ∃ x', (ImmL.getLeases (ImmL.renewLease h f secret t).1)[j]? = some x' ∧ x.expire ≤ x'.expire ∧
+      x'.owner = x.owner ∧ x'.renew = x.renew ∧ x'.cancel = x.cancel ∧ x'.nodeid = x.nodeid := by
+  unfold ImmL.renewLease
+  split
+  · exact ⟨x, hx, Nat.le_refl _, rfl, rfl, rfl, rfl⟩
+  · split
+    · exact ⟨x, hx, Nat.le_refl _, rfl, rfl, rfl, rfl⟩
+    · rename_i s _ i l hfind
+      obtain ⟨_, hget, _⟩ := ImmL.findRenew_some hfind
+      rw [Nat.sub_zero] at hget
+      obtain ⟨hi, _, ho, he, hr, hc, hn⟩ := ImmL.listed_lease hwf hget
+      split
+      · rename_i hgt
+        have w := ImmL.write_spec f hwf i hi (serImm { l with expire := t }) (length_serImm _)
+        simp only [ImmL.writeLeaseRecord]
+        rw [w.getElem? hwf j, ImmL.parseImm_serImm { l with expire := t } ho ht hr hc hn]
+        by_cases hj : j = i
+        · subst hj
+          rw [hget] at hx
+          simp only [Option.some.injEq] at hx
+          subst hx
+          exact ⟨{ l with expire := t }, by simp [hi], by simp only; omega, rfl, rfl, rfl, rfl⟩
+        · exact ⟨x, by simp [hj, hx], Nat.le_refl _, rfl, rfl, rfl, rfl⟩
+      · exact ⟨x, hx, Nat.le_refl _, rfl, rfl, rfl, rfl⟩
+
+/-- **no_backdating**, immutable container, for the whole `add_or_renew_lease` (renew path and append path) -/
+theorem no_backdating_immutable (h : Bytes → Bytes) (f : File) (hwf : ImmL.WF f) (avail : Nat) (li : Lease)
+    (hexp : li.expire < 2 ^ 32) (hcount : ImmL.numLeases f + 1 < 2 ^ 32)
+    (j : Nat) (x : Lease) (hx : (ImmL.getLeases f)[j]? = some x) :
+    ∃ x', (ImmL.getLeases (ImmL.addOrRenew h f avail li).1)[j]? = some x' ∧ x.expire ≤ x'.expire ∧
+      x'.owner = x.owner ∧ x'.renew = x.renew ∧ x'.cancel = x.cancel ∧ x'.nodeid = x.nodeid := by
+  have hr := no_backdating_renew_immutable h f hwf li.renew li.expire hexp j x hx
+  unfold ImmL.addOrRenew
+  split
+  · rename_i f' e; rw [e] at hr; exact hr
+  · split
+    · exact ⟨x, hx, Nat.le_refl _, rfl, rfl, rfl, rfl⟩
+    · refine ⟨x, ?_, Nat.le_refl _, rfl, rfl, rfl, rfl⟩
+      unfold ImmL.addLease
+      cases hs : ImmL.schemaOf f with
+      | none => exact hx
+      | some s =>
+        simp only [ImmL.writeLeaseRecord]
+        have w := ImmL.append_spec f hwf (serImm (toStored h s li)) (length_serImm _) hcount
+        rw [w.getLeases hwf, List.getElem?_append_left]
+        · exact hx
+        · have := ImmL.listed_lease hwf hx
+          rw [ImmL.length_getLeases hwf]; exact this.1
+  · rename_i f' e' _ e; rw [e] at hr; exact hr
+
+/-- **no_backdating** (both container kinds): `add_or_renew_lease` — whichever path it takes — never removes a
+    lease, never changes its owner or secrets, and never shortens its expiry.  (`numLeases f + 1 < 2^32`:
+    Python raises `struct.error` when the lease count no longer fits its 4-byte field.) -/
+theorem no_backdating (h : Bytes → Bytes) (avail : Nat) (li : Lease) (hexp : li.expire < 2 ^ 32) :
+    (∀ f j x, WF f → (j, x) ∈ enumerateLeases f →
+      ∃ x', (j, x') ∈ enumerateLeases (Mutable.addOrRenew h f avail li).1 ∧ x.expire ≤ x'.expire ∧
+        x'.owner = x.owner ∧ x'.renew = x.renew ∧ x'.cancel = x.cancel ∧ x'.nodeid = x.nodeid) ∧
+    (∀ f (j : Nat) x, ImmL.WF f → ImmL.numLeases f + 1 < 2 ^ 32 → (ImmL.getLeases f)[j]? = some x →
+      ∃ x', (ImmL.getLeases (ImmL.addOrRenew h f avail li).1)[j]? = some x' ∧ x.expire ≤ x'.expire ∧
+        x'.owner = x.owner ∧ x'.renew = x.renew ∧ x'.cancel = x.cancel ∧ x'.nodeid = x.nodeid) :=
+  ⟨fun f j x hwf hx => no_backdating_mutable h f hwf avail li hexp j x hx,
+   fun f j x hwf hc hx => no_backdating_immutable h f hwf avail li hexp hc j x hx⟩
 
 /-! ### cancel_lease (mutable container; the lease crawler's way of removing expired leases) -/
 
@@ -212,9 +343,143 @@ theorem cancel_removes_exactly (h : Bytes → Bytes) (f : File) (hwf : WF f) (s 
           exact hm hq'.2
         simp [hm, hnot]
 
-/- `ImmL.cancelLease` (immutable container: remaining leases re-packed, count rewritten, file truncated, file
-   unlinked when no lease is left) and the unlink case of the mutable container are tied to the code by the C25
-   correspondence only (results, freed-space values, lease lists and raw bytes after every cancel). -/
+/-! ### cancel_lease, immutable container, and the unlink case of both kinds -/
+
+theorem cancel_unknown_noop_error_immutable (h : Bytes → Bytes) (f : File) (s : Schema)
+    (hs : ImmL.schemaOf f = some s) (secret : Bytes)
+    (hun : ∀ l ∈ ImmL.getLeases f, isCancelSecret h s l secret = false) :
+    ImmL.cancelLease h f secret = (some f, 0, some .indexError) := by
+  have : (ImmL.getLeases f).filter (fun l => !isCancelSecret h s l secret) = ImmL.getLeases f := by
+    rw [List.filter_eq_self]; intro l hl; simp [hun l hl]
+  simp only [ImmL.cancelLease, hs, this, Nat.sub_self, if_true]
+
+/-- **cancel removes exactly the leases with that cancel secret**, immutable container: when `cancel_lease`
+    succeeds and the share survives, the new file is well formed, `get_leases` is the old list minus exactly the
+    leases carrying the cancel secret IN THE SAME ORDER (re-packed, no holes), the share data and the version are
+    untouched, the count field and the file length are consistent with the remaining leases, and the freed
+    space is 72 bytes per removed lease -/
+theorem cancel_removes_exactly_immutable (h : Bytes → Bytes) (f : File) (hwf : ImmL.WF f) (s : Schema)
+    (hs : ImmL.schemaOf f = some s) (secret : Bytes) (f' : File) (freed : Nat)
+    (hc : ImmL.cancelLease h f secret = (some f', freed, none)) :
+    ImmL.WF f' ∧
+    ImmL.getLeases f' = (ImmL.getLeases f).filter (fun l => !isCancelSecret h s l secret) ∧
+    ImmL.dataOf f' = ImmL.dataOf f ∧ ImmL.schemaOf f' = ImmL.schemaOf f ∧
+    ImmL.numLeases f' = ((ImmL.getLeases f).filter (fun l => !isCancelSecret h s l secret)).length ∧
+    ImmL.leaseOffset f' = ImmL.leaseOffset f ∧
+    f'.length = ImmL.leaseOffset f + ImmL.numLeases f' * 72 ∧
+    freed = 72 * (ImmL.numLeases f - ImmL.numLeases f') := by
+  simp only [ImmL.cancelLease, hs] at hc
+  split at hc
+  · simp at hc
+  · split at hc
+    · simp at hc
+    · simp only [Prod.mk.injEq, Option.some.injEq, and_true] at hc
+      obtain ⟨hf', hfreed⟩ := hc
+      have hsub : ∀ l ∈ (ImmL.getLeases f).filter (fun l => !isCancelSecret h s l secret),
+          ∃ j : Nat, (ImmL.getLeases f)[j]? = some l := by
+        intro l hl
+        exact List.getElem?_of_mem (List.mem_filter.mp hl).1
+      have hle : ((ImmL.getLeases f).filter (fun l => !isCancelSecret h s l secret)).length ≤ ImmL.numLeases f := by
+        rw [← ImmL.length_getLeases hwf]; exact List.length_filter_le _ _
+      obtain ⟨a, b, c, d, e, g, k⟩ := ImmL.cancel_file_spec f hwf _ hsub hle f' hf'.symm
+      refine ⟨a, b, c, d, e, g, by rw [e]; exact k, ?_⟩
+      rw [e, ← hfreed, ImmL.length_getLeases hwf]
+
+/-- **unlink case**, immutable container: cancelling with a secret that EVERY lease carries (at least one lease)
+    removes the file; the freed space is the whole file -/
+theorem cancel_all_unlinks_immutable (h : Bytes → Bytes) (f : File) (hwf : ImmL.WF f) (s : Schema)
+    (hs : ImmL.schemaOf f = some s) (secret : Bytes) (hne : ImmL.numLeases f ≠ 0)
+    (hall : ∀ l ∈ ImmL.getLeases f, isCancelSecret h s l secret = true) :
+    ImmL.cancelLease h f secret = (none, f.length, none) := by
+  have hk : (ImmL.getLeases f).filter (fun l => !isCancelSecret h s l secret) = [] := by
+    rw [List.filter_eq_nil_iff]; intro l hl; simp [hall l hl]
+  have hlen := ImmL.length_getLeases hwf
+  have hend := (ImmL.lo_facts hwf).2
+  simp only [ImmL.cancelLease, hs, hk, List.length_nil, Nat.sub_zero, hlen, hne, if_false, if_true,
+    length_truncate, Nat.zero_mul, Nat.add_zero, Prod.mk.injEq, true_and, and_true]
+  omega
+
+/-- **unlink case**, mutable container: when every listed lease carries the cancel secret the file is removed -/
+theorem cancel_all_unlinks_mutable (h : Bytes → Bytes) (f : File) (s : Schema) (hs : Mutable.schemaOf f = some s)
+    (secret : Bytes) (hne : enumerateLeases f ≠ [])
+    (hall : ∀ p ∈ enumerateLeases f, isCancelSecret h s p.2 secret = true) :
+    ∃ freed, Mutable.cancelLease h f secret = (none, freed, none) := by
+  have hk : (enumerateLeases f).filter (fun p => isCancelSecret h s p.2 secret) = enumerateLeases f := by
+    rw [List.filter_eq_self]; intro p hp; exact hall p hp
+  have hemp : (enumerateLeases f).isEmpty = false := by
+    cases hL : enumerateLeases f with
+    | nil => exact absurd hL hne
+    | cons _ _ => rfl
+  simp only [Mutable.cancelLease, hs, hk, hemp, Nat.sub_self, if_true, Bool.false_eq_true, if_false]
+  exact ⟨_, rfl⟩
+
+/-- **unlink at the bucket**: when `cancel_lease` on the file of share `n` unlinks it (either kind), the share is
+    gone from the bucket and every other share is exactly as before -/
+theorem cancel_unlink_removes_share_only (env : Env) (b : Bucket) (n : Nat) (secret : Bytes) (f : File)
+    (hl : lookup b n = some f) (freed : Nat) (e : Option Err)
+    (hres : (kindOf f = .mutable ∧ Mutable.cancelLease env.h f secret = (none, freed, e)) ∨
+            (kindOf f = .immutable ∧ ImmL.cancelLease env.h f secret = (none, freed, e))) :
+    shareCancel env b n secret = some (erase b n, freed, e) ∧
+    lookup (erase b n) n = none ∧ ∀ m, m ≠ n → lookup (erase b n) m = lookup b m := by
+  refine ⟨?_, lookup_erase_self b n, fun m hm => lookup_erase_ne b n m hm⟩
+  rcases hres with ⟨hk, hr⟩ | ⟨hk, hr⟩ <;> simp only [shareCancel, hl, hk, hr]
+
+/-! ### non-vacuity: concrete containers meeting the hypotheses above -/
+
+/-- an immutable v2 share with 3 data bytes and two leases (secrets `[1]*32` / `[2]*32`, cancel `[3]*32` / `[4]*32`) -/
+def exImm : File :=
+  ImmL.addLease id (ImmL.addLease id (ImmL.fresh 2 [1, 2, 3])
+    { owner := 1, expire := 100, renew := List.replicate 32 1, cancel := List.replicate 32 3, nodeid := [] })
+    { owner := 1, expire := 200, renew := List.replicate 32 2, cancel := List.replicate 32 4, nodeid := [] }
+
+set_option maxRecDepth 20000 in
+example : (ImmL.schemaOf exImm = some .v2 ∧ 12 + ImmL.numLeases exImm * 72 ≤ exImm.length) ∧
+    ImmL.numLeases exImm + 1 < 2 ^ 32 ∧ ImmL.dataOf exImm = [1, 2, 3] ∧
+    -- hypothesis of `renew_or_add_immutable` / `no_backdating_immutable`
+    ImmL.findRenew id .v2 (List.replicate 32 2) (ImmL.getLeases exImm) 0 =
+      some (1, { owner := 1, expire := 200, renew := List.replicate 32 2, cancel := List.replicate 32 4, nodeid := [] }) ∧
+    -- and its conclusion on this instance: renewed in place, count unchanged
+    (ImmL.getLeases (ImmL.addOrRenew id exImm 0
+        { owner := 1, expire := 300, renew := List.replicate 32 2, cancel := [], nodeid := [] }).1).map (·.expire) = [100, 300] ∧
+    -- an older expiry does not backdate
+    (ImmL.getLeases (ImmL.addOrRenew id exImm 0
+        { owner := 1, expire := 50, renew := List.replicate 32 2, cancel := [], nodeid := [] }).1).map (·.expire) = [100, 200] := by
+  decide
+
+/-- the immutable example after cancelling `[3]*32` -/
+def exImm' : File := (ImmL.cancelLease id exImm (List.replicate 32 3)).1.getD []
+
+set_option maxRecDepth 20000 in
+/-- `cancel_removes_exactly_immutable` and the unlink case are not vacuous: cancelling `[3]*32` succeeds, frees 72
+    bytes and keeps the second lease and the data; cancelling that one next removes the file -/
+example :
+    (ImmL.cancelLease id exImm (List.replicate 32 3)).1.isSome = true ∧
+    (ImmL.cancelLease id exImm (List.replicate 32 3)).2 = (72, none) ∧
+    (ImmL.getLeases exImm').map (·.expire) = [200] ∧ ImmL.dataOf exImm' = [1, 2, 3] ∧
+    (ImmL.cancelLease id exImm' (List.replicate 32 4)).1 = none ∧
+    (ImmL.cancelLease id exImm' (List.replicate 32 4)).2.2 = none := by
+  decide
+
+/-- a mutable v1 container with two leases (slots 0 and 1) -/
+def exMut : File :=
+  (addOrRenew id (addOrRenew id (create .v1 (zeros 20) (zeros 32)) 1000
+      { owner := 1, expire := 100, renew := List.replicate 32 1, cancel := List.replicate 32 3, nodeid := zeros 20 }).1 1000
+      { owner := 1, expire := 200, renew := List.replicate 32 2, cancel := List.replicate 32 4, nodeid := zeros 20 }).1
+
+def exMut' : File := (Mutable.cancelLease id exMut (List.replicate 32 3)).1.getD []
+
+set_option maxRecDepth 20000 in
+/-- mutable: cancelling the first lease leaves a hole in slot 0 and the second lease in slot 1 (still renewable
+    behind the hole); cancelling both unlinks -/
+example :
+    (enumerateLeases exMut).map (fun p => (p.1, p.2.expire)) = [(0, 100), (1, 200)] ∧
+    (Mutable.cancelLease id exMut (List.replicate 32 3)).2.2 = none ∧
+    (enumerateLeases exMut').map (fun p => (p.1, p.2.expire)) = [(1, 200)] ∧
+    (enumerateLeases (addOrRenew id exMut' 0
+        { owner := 1, expire := 300, renew := List.replicate 32 2, cancel := [], nodeid := zeros 20 }).1).map
+      (fun p => (p.1, p.2.expire)) = [(1, 300)] ∧
+    (Mutable.cancelLease id exMut' (List.replicate 32 4)).1 = none := by
+  decide
 
 /-! ### leases survive data writes and container growth -/
 
